@@ -48,6 +48,9 @@ type UDPConn struct {
 	WriteErrs int
 	// ReadLog lists, in order, the datagram copies returned by ReadFrom.
 	ReadLog []*DgramRec
+	// ReadSeqs/ReadAts: scheduler step and virtual time of each ReadLog entry.
+	ReadSeqs []int
+	ReadAts  []time.Duration
 	// LastSent is the ledger record of the most recent WriteTo on this socket.
 	LastSent *DgramRec
 }
@@ -158,6 +161,8 @@ func (c *UDPConn) ReadFromUDP(p []byte) (int, *net.UDPAddr, error) {
 			n := copy(p, d.data)
 			c.NRecv++
 			c.ReadLog = append(c.ReadLog, d.rec)
+			c.ReadSeqs = append(c.ReadSeqs, simrt.Steps())
+			c.ReadAts = append(c.ReadAts, simrt.Elapsed())
 			simrt.Log("udp:read", int64(c.ID), int64(n))
 			from := *d.from
 			return n, &from, nil
